@@ -482,6 +482,14 @@ class SimplicialComplex(Hypergraph):
         if isinstance(ebunch_to_add, dict):
             faces = []  # container to store subfaces
             for idx, members in ebunch_to_add.items():
+                try:
+                    if iter(members) is members:  # one-shot iterator: read it only once
+                        members = list(members)
+                except TypeError as e:
+                    raise XGIError("Invalid ebunch format") from e
+                if None in members:
+                    raise XGIError("None cannot be a node")
+
                 # check that it does not exist yet (based on members, not ID)
                 if not members or self.has_simplex(members):
                     continue
@@ -568,9 +576,12 @@ class SimplicialComplex(Hypergraph):
             # check if members is iterable before checking it exists
             # to raise meaningful error if not iterable
             try:
-                _ = iter(members)
+                if iter(members) is members:  # one-shot iterator: read it only once
+                    members = list(members)
             except TypeError as e:
                 raise XGIError("Invalid ebunch format") from e
+            if None in members:
+                raise XGIError("None cannot be a node")
 
             # check that it does not exist yet (based on members, not ID)
             if not members or self.has_simplex(members):
